@@ -584,7 +584,8 @@ class VcfReader:
     @staticmethod
     def _extract_HP_phase(call: VariantRecordSample) -> Optional[VariantCallPhase]:
         hp = call.get("HP")
-        if hp is None or hp == (".",):
+        if hp is None or hp == (".",) or any(value is None for value in hp):
+            # absent, '.' or left empty because only other samples of the record carry HP
             return None
         fields = [[int(x) for x in s.split("-")] for s in hp]
         for i in range(len(fields)):
